@@ -70,6 +70,12 @@ def apply_family(rng, fam, X, params, name):
         X = X / 3.0 * float(fam[5:])
     elif fam == "constcol":
         X[:, int(rng.integers(0, d))] = float(rng.choice([0.0, 1.5, -200.0]))
+        if name in gen.SPARSE and rng.random() < 0.6:
+            # an all-zero column never receives a gradient: with a real penalty and enough steps its weights are shrunk to
+            # exactly zero and stay there - the proximal step then works on an exactly-zero row at every later step
+            X[:, int(rng.integers(0, d))] = 0.0
+            params.update(alpha=float(rng.choice([5.0, 50.0])), learning_rate=float(rng.choice([1e-2, 5e-2])),
+                          max_iter=int(rng.integers(80, 220)), batch_size=None)
     elif fam == "dupcol":
         if d >= 2:
             X[:, d - 1] = X[:, 0]
